@@ -326,7 +326,9 @@ def task(args):
                             fails.append(r)
                             if hist_fail is None:
                                 hist_fail = (list(w), xsd, i)
-            obs.append(dict(oid=f'C14/children/{name}', status='discharged' if not fails else 'violated', detail='; '.join(fails[:2]) or None,
+            import hashlib
+            sig = (f' [{len(fails)} failing cases in all, digest {hashlib.sha1(chr(10).join(fails).encode()).hexdigest()[:12]}]' if len(fails) > 2 else '')
+            obs.append(dict(oid=f'C14/children/{name}', status='discharged' if not fails else 'violated', detail=('; '.join(fails[:2]) + sig) or None,
                             level='bounded', paths=n, name=name, cname=cname, kind='children', bound=kbound, skipped=skipped,
                             word=(fail_words and fail_words[0]) or None, hist=hist_fail))
     finally:
